@@ -40,6 +40,7 @@ type Prog struct {
 	sortsDeclared []string
 	specFiles     []string
 	specFunOrder  []string
+	madeIfaceSet map[string]bool
 	implCache     map[string][]implSpec
 }
 
@@ -206,6 +207,18 @@ func (P *Prog) mergeVariants() {
 				cp.Free = true
 				cp.Src = c.Src + "   [proved in aspect " + s.Variant + "]"
 				base.Ensures = append(base.Ensures, &cp)
+			}
+			// the exported clauses may use the aspect's entry-state abbreviations
+			for _, l := range s.Lets {
+				dup := false
+				for _, bl := range base.Lets {
+					if bl.Name == l.Name {
+						dup = true
+					}
+				}
+				if !dup {
+					base.Lets = append(base.Lets, l)
+				}
 			}
 		}
 		for _, s := range specs {
